@@ -338,10 +338,11 @@ func TestEnvelope(t *testing.T) {
 	rapid.Check(t, func(rt *rapid.T) {
 		detrand.Seed(rapid.Uint64().Draw(rt, "entropy"))
 		d := rapid.SampledFrom(specs).Draw(rt, "dek")
-		kekKind := rapid.SampledFrom([]string{"aesgcm-subtle", "aesgcm-handle-tink", "fakekms"}).Draw(rt, "kek")
+		kekKind := rapid.SampledFrom([]string{"aesgcm-subtle", "aesgcm-handle-tink", "fakekms", "padded"}).Draw(rt, "kek")
 		kekKey := gen.BytesN(rt, "kekkey", 32)
 		var kek tink.AEAD
 		var kekPrefix []byte
+		paddedTarget := 0
 		switch kekKind {
 		case "aesgcm-subtle":
 			kek = tk.Must(aeadsubtle.NewAESGCM(kekKey))
@@ -356,14 +357,34 @@ func TestEnvelope(t *testing.T) {
 				rt.Fatalf("fakekms.NewKeyURI: %v", err)
 			}
 			kek = tk.Must(fakekms.NewAEAD(uri))
+		case "padded":
+			// a KMS whose wrapped keys have a chosen length, up to and beyond the format's documented
+			// maximum of 4096 bytes (added after seeded change C01d)
+			target := rapid.SampledFrom([]int{160, 255, 256, 1000, 4094, 4095, 4096, 4097, 5000}).Draw(rt, "encdek_len")
+			kek = paddedKEK{inner: tk.Must(aeadsubtle.NewAESGCM(kekKey)), target: target}
+			paddedTarget = target
 		}
-		env := aead.NewKMSEnvelopeAEAD2(d.kt, kek)
+		api := rapid.SampledFrom(tk.EnvelopeAPIs).Draw(rt, "api")
+		env, err := tk.Envelope(api, d.kt, kek)
+		if err != nil {
+			rt.Fatalf("envelope constructor %s refuses the supported DEK template %s: %v", api, d.name, err)
+		}
 		pt := gen.Bytes(rt, "pt", 4096)
 		ad := gen.BytesOrNil(rt, "ad", 300)
-		desc := fmt.Sprintf("envelope dek=%s kek=%s kekkey=%x pt=%s ad=%s", d.name, kekKind, kekKey, gen.Hex(pt), gen.Hex(ad))
+		desc := fmt.Sprintf("envelope api=%s dek=%s kek=%s kekkey=%x pt=%s ad=%s", api, d.name, kekKind, kekKey, gen.Hex(pt), gen.Hex(ad))
 		ct, err := env.Encrypt(pt, ad)
 		if err != nil {
+			if paddedTarget > 4096 {
+				// beyond the documented maximum length of the encrypted DEK: refused, cleanly
+				evid.Case(fmt.Sprintf("envelope/%s/%s/encdek>4096-refused", api, d.name), true, evid.NewH().S(api).S(d.name).I(int64(paddedTarget)).B(pt).Sum(), func() any {
+					return map[string]any{"api": api, "dek": d.name, "enc_dek_len": paddedTarget, "encrypt_error": err.Error()}
+				})
+				return
+			}
 			rt.Fatalf("%s: Encrypt: %v", desc, err)
+		}
+		if paddedTarget > 0 {
+			desc += fmt.Sprintf(" encdek_len=%d", paddedTarget)
 		}
 		got, err := env.Decrypt(ct, ad)
 		if err != nil || !bytes.Equal(got, pt) {
@@ -379,7 +400,10 @@ func TestEnvelope(t *testing.T) {
 		}
 		encDEK, payload := ct[4:4+n], ct[4+n:]
 		var dek []byte
-		if kekKind == "fakekms" {
+		if kekKind == "padded" && n != paddedTarget {
+			rt.Fatalf("%s: encrypted-DEK length field %d, the KEK returned %d bytes", desc, n, paddedTarget)
+		}
+		if kekKind == "fakekms" || kekKind == "padded" {
 			dek, err = kek.Decrypt(encDEK, []byte{})
 		} else {
 			if !bytes.HasPrefix(encDEK, kekPrefix) {
@@ -409,7 +433,7 @@ func TestEnvelope(t *testing.T) {
 			rt.Fatalf("%s: independent implementation cannot open the payload with the recovered DEK: %v", desc, err)
 		}
 		// harness-built envelope -> Tink
-		if kekKind != "fakekms" {
+		if kekKind != "fakekms" && kekKind != "padded" {
 			k2 := gen.BytesN(rt, "dekkey", d.key)
 			var m2 []byte
 			if d.mac > 0 {
@@ -427,10 +451,47 @@ func TestEnvelope(t *testing.T) {
 				rt.Fatalf("%s: Tink cannot decrypt an envelope assembled by the independent implementation (dek key %x): %s, %v", desc, k2, gen.Hex(got), err)
 			}
 		}
-		evid.Case(fmt.Sprintf("envelope/%s/%s/pt=%s", d.name, kekKind, gen.LenClass(len(pt))), len(pt) >= 1, evid.NewH().S(d.name).S(kekKind).B(kekKey).B(pt).B(ad).Sum(), func() any {
-			return map[string]any{"dek": d.name, "kek": kekKind, "pt": gen.Hex(pt), "ad": gen.Hex(ad), "enc_dek_len": n}
+		evid.Case(fmt.Sprintf("envelope/%s/%s/%s/pt=%s", api, d.name, kekKind, gen.LenClass(len(pt))), len(pt) >= 1, evid.NewH().S(api).S(d.name).S(kekKind).B(kekKey).B(pt).B(ad).Sum(), func() any {
+			return map[string]any{"api": api, "dek": d.name, "kek": kekKind, "pt": gen.Hex(pt), "ad": gen.Hex(ad), "enc_dek_len": n}
 		})
 	})
+}
+
+// paddedKEK is a key-encryption AEAD whose ciphertexts have a chosen length: 2-byte length of the
+// inner ciphertext, the inner ciphertext, zero padding up to target.
+type paddedKEK struct {
+	inner  tink.AEAD
+	target int
+}
+
+func (p paddedKEK) Encrypt(pt, ad []byte) ([]byte, error) {
+	ct, err := p.inner.Encrypt(pt, ad)
+	if err != nil {
+		return nil, err
+	}
+	if 2+len(ct) > p.target {
+		return nil, fmt.Errorf("paddedKEK: inner ciphertext of %d bytes does not fit %d", len(ct), p.target)
+	}
+	out := make([]byte, p.target)
+	binary.BigEndian.PutUint16(out, uint16(len(ct)))
+	copy(out[2:], ct)
+	return out, nil
+}
+
+func (p paddedKEK) Decrypt(ct, ad []byte) ([]byte, error) {
+	if len(ct) != p.target || len(ct) < 2 {
+		return nil, fmt.Errorf("paddedKEK: ciphertext of %d bytes, want %d", len(ct), p.target)
+	}
+	n := int(binary.BigEndian.Uint16(ct))
+	if 2+n > len(ct) {
+		return nil, fmt.Errorf("paddedKEK: bad inner length")
+	}
+	for _, b := range ct[2+n:] {
+		if b != 0 {
+			return nil, fmt.Errorf("paddedKEK: bad padding")
+		}
+	}
+	return p.inner.Decrypt(ct[2:2+n], ad)
 }
 
 // TestAEADRefusedParameters: parameter combinations the parameter constructors accept but the
